@@ -68,6 +68,10 @@ class C03(Prop):
         for sub in itertools.combinations(ps4, 2):
             if rng.random() < (1.0 if deep or self.tier == "thorough" else 0.25):
                 yield {"kind": "profile", "alts": [1, 2, 3, 4], "orders": [list(o) for o in sub], "planted": None}
+        if self.tier == "thorough":
+            # every set of three distinct orders over four alternatives (2 024 profiles)
+            for sub in itertools.combinations(ps4, 3):
+                yield {"kind": "profile", "alts": [1, 2, 3, 4], "orders": [list(o) for o in sub], "planted": None}
         for i in range(n):
             for c in self._random_case(rng):
                 yield gen.strict_case_extras(rng, c)
